@@ -44,8 +44,12 @@ ASSUMPTIONS = [
     "python -O (assertions stripped) is not modelled: Theory.__init__'s assertion is the predicate Theory.init_ok",
     "well-formed theories for combine_ub: difference flag only with its arithmetic flag (see known finding F45)",
     "difference logic is not a covered feature (pySMT's IDL/RDL detection is a heuristic; the property does not list it)",
-    "non-linear = product with >= 2 operands that contain a symbol or function application, division whose divisor "
-    "contains one, or pow",
+    "non-linear = product with >= 2 operands that contain a free symbol (function names count), division whose "
+    "divisor contains one, or pow",
+    "Lean detection theorems: about the hand-written model Impl/TheoryOracle.lean (K-compared with the real oracle on "
+    "every generated formula), for terms `inFragment` (no pow, function symbols only applied) and for the intrinsic "
+    "features; operand-implied features (operator families over well-sorted operands, parameter sorts) are checked by "
+    "S only",
 ]
 
 FIELDS = list(inspect.signature(PL.Theory.__init__).parameters)[1:]
@@ -720,10 +724,16 @@ def selection(ctx, T, lean_ok):
         b.add(line, show_outcome(o))
         ctx.count("sel_" + kind)
         ctx.count("sel_outcome_" + (o[1] if o[0] == "err" else "ok"))
-    for kind, t, lst in cases[:3]:
+    shown = {"closer": 0, "mostgeneric": 0}
+    for kind, t, lst in cases:
+        if kind not in shown or shown[kind] >= (2 if kind == "closer" else 1) or lst is None or not (2 <= len(lst) <= 8):
+            continue
+        o = run_case(kind, t, lst)
+        if o[0] != "ok" or (kind == "closer" and sum(1 for l in lst if t <= l) < 2):
+            continue
+        shown[kind] += 1
         ctx.sample({"call": kind, "target": show_logic(t) if t is not None else None,
-                    "supported": [l.name for l in lst][:10] if lst is not None else kind,
-                    "result": show_outcome(run_case(kind, t, lst))})
+                    "supported": [l.name for l in lst], "result": show_outcome(o)})
     if lean_ok:
         b.run(ctx, "selection")
 
@@ -1167,6 +1177,7 @@ def detection(ctx, lean_caps):
              ("bool", "int", "real", "bv", "str", "arr", "uf", "quant")]
     n_rand = 1500 if ctx.tier == "quick" else 30000
     unis = [gen.Universe(env, theories=mx, prefix="c13_%d_" % i) for i, mx in enumerate(mixes)]
+    shown_random = 0
     for i in range(n_rand):
         if ctx.time_left() < 25:
             break
@@ -1176,7 +1187,8 @@ def detection(ctx, lean_caps):
         res = detect_check(ctx, env, "random", f, stats)
         if res and i % 3 == 0:
             kcases.append((f, res))
-        if i < 2:
+        if shown_random < 2 and len(features(f)[0]) >= 3:
+            shown_random += 1
             ctx.sample({"random": f.serialize()[:200], "needs": sorted(features(f)[0]),
                         "theory": named_flags(tbits(env.theoryo.get_theory(f)))})
     ctx.extra["detection"] = dict(stats, shapes=len(shapes))
@@ -1191,6 +1203,11 @@ def detection(ctx, lean_caps):
                 b.add("features " + w, nb + (" q" if quant else " qf"), "features of " + f.serialize()[:200])
             if "detect" in lean_caps and lo is not None:
                 b.add("detect " + w, show_outcome(lo), "get_logic of " + f.serialize()[:200])
+            if "fragment" in lean_caps:
+                # the hypothesis of detect_covers_partial holds for everything pysmt builds, except `pow`
+                has_pow = " pow " in (" " + w + " ")
+                b.add("fragment " + w, "false" if has_pow else "true", "inFragment of " + f.serialize()[:200])
+                ctx.count("detect_in_fragment" if not has_pow else "detect_out_of_fragment_pow")
         b.run(ctx, "detection")
     else:
         ctx.count("k_detection_skipped_no_lean_model", len(kcases))
